@@ -1,14 +1,26 @@
 """C19 -- Space-charge kicks change momenta only and scale with charge and length.   (level: partial)
 
-proof stage      : Props/C19.v (model SpaceCharge/Cic.v, proofs SpaceCharge/CicProofs.v): cloud-in-cell weights, deposition,
-                   gathering and the kick algebra, with the FFT field solve as an arbitrary linear grid operator.
+proof stage      : Props/C19.v.  Part 1 (model SpaceCharge/Cic.v, proofs CicProofs.v): cloud-in-cell weights, deposition, gathering and
+                   the kick algebra with the field solve as an arbitrary linear grid operator.  Part 2 (model SpaceCharge/Hockney.v, proofs
+                   HockneyProofs.v): the structure of the field solve -- zero padding, mirrored doubled Green array, cyclic convolution, crop,
+                   central differences, -1/gamma^2: cropped cyclic convolution == open-boundary sum (1-D, 3-D), linearity (instance of the
+                   hypotheses of part 1), mirror symmetry, Newton's third law on the grid.  Part 3 (SpaceCharge/Igf.v, reals): the
+                   _integrated_potential formula is odd per argument, G_values depends on |offsets| only; 1/gamma^2 cancellation.
 correspondence   : the real SpaceChargeKick._deposit_charge_on_grid is called on dyadic inputs (float64: every value exact) and the
                    whole returned grid is compared with the Q model by vm_compute; the real _compute_forces is called with
                    _E_plus_vB_field replaced by a known integer-valued grid and the gathered forces are compared with the model
                    (tolerance 1e-12 relative: the factor e is not dyadic).
+                   Hockney layer (HockneyCheck.v): on small grids, batches with anisotropic cells and different energies,
+                   (a) every entry of the real _integrated_green_function array sits where green3 says (exact; G := its own first octant),
+                   (b) the real _solve_poisson_equation on integer densities (deposition replaced by known data; _array_rho, Green array,
+                       rfftn/irfftn, crop real) == the model's cyclic convolution with that G (1e-9 of k0 max|G| sum|rho|),
+                   (c) the real _E_plus_vB_field on a known integer potential == the model's stencil (1e-12),
+                   (d) the real _E_plus_vB_field on a known density == hsolve, the object the theorems speak about.
 oracle           : metamorphic relations on full SpaceChargeKick.track runs (float64): untouched positions/charges/survival/energy,
                    dp ~ charge, dp ~ effect_length, permutation equivariance, zero charge, lost particles, vectorised == loop,
                    outward push; thorough tier: uniformly charged sphere vs the analytic field.
+                   Hockney layer: independent numpy references (mirror layout, 8-corner antiderivative sum for the Green values, direct
+                   open-boundary summation, central differences) give a concrete failing input (kind "hockney", replayable).
                    hidden state: ONE element instance tracks a sequence of different beams (same coordinates at other energies, other
                    charges, other sizes, a vectorised beam, the first beam again); every result must equal what a freshly constructed
                    element with the same parameters returns (1e-12 of the kick), and the element's parameters must not change.
@@ -932,7 +944,9 @@ def main(tier, replay=None):
     run.cov["tested_only"] = ["irfftn(rfftn(a) * rfftn(b)) == cyclic convolution (the convolution theorem for torch's FFT): modelled, not verified; tied to "
                               "the code by _solve_poisson_equation vs the model's cyclic convolution on small grids (1e-9 of k0 max|G| sum|rho|)",
                               "the integrated-Green-function VALUES (first octant) are data in the model; compared with an independent numpy evaluation "
-                              "of the 8-corner antiderivative sum (1e-9 of max|G|)",
+                              "of the 8-corner antiderivative sum (1e-9 of max|G|); the float evaluation of the formula proved odd over R is not modelled",
+                              "linearity of the float64 FFT field solve on full-size grids: charge-scaling relation on full kicks, 1e-6 (the model's solve is "
+                              "proved linear)",
                               "invariance of the sigma-based grid geometry under permutation, charge scaling, lost particles (enters the same relations)",
                               "delta: proportional to charge and length to first order (second-order remainder bounded by 4*max|ddelta|^2)",
                               "outward push (sign agreement >= 0.8, correlation >= 0.5 on a Gaussian bunch)",
